@@ -33,6 +33,8 @@ const VARIANTS = [
   { name: 'suffix-first', add: [{ src: 'at' }], prepend: true }
 ]
 
+const EXTRAS = { verbosity_off: { telemetryVerbosity: 'OFF' }, verbosity_debug: { telemetryVerbosity: 'DEBUG' }, verbosity_mandatory: { telemetryVerbosity: 'MANDATORY' }, comments: { comments: true }, chain: { chainSourceMap: true }, no_literals: { literals: false }, no_prefix: { localVarPrefix: undefined } }
+
 // ---- (ii) options --------------------------------------------------------------------------------------
 const OPT_VALUES = { chainSourceMap: true, comments: true, localVarPrefix: 'zz', csiMethods: [{ src: 'trim', dst: 'x' }], telemetryVerbosity: 'DEBUG', literals: false }
 const VERB = [undefined, 'OFF', 'off', 'Debug', 'MANDATORY', 'INFORMATION', 'bogus']
@@ -53,13 +55,17 @@ async function build (tier) {
     const dims = ENTRIES.map((e, i) => ({ name: 'e' + i, symbols: [false, true], free: true }))
     ENTRIES.forEach((e, i) => dims.push({ name: 'r' + i, symbols: [false, true], free: tier === 'thorough' }))
     dims.push({ name: 'variant', symbols: [null].concat(VARIANTS.map((v) => v.name)) })
+    // one other option set next to the method list (the prologue and the closed world must not depend on it)
+    dims.push({ name: 'extra', symbols: [null].concat(Object.keys(EXTRAS)) })
     const r = enumerate(dims, { k: 1, valid: (cur, i) => { if (i >= 9 && i < 18 && cur['r' + (i - 9)] && !cur['e' + (i - 9)]) return false; return true } })
     stats = addStats(stats, r.stats)
     for (const l of r.leaves) {
       let methods = ENTRIES.map((e, i) => l.pick['r' + i] ? Object.assign({}, e, { dst: 'r' + i + '_' + e.src }) : e).filter((e, i) => l.pick['e' + i])
       const variant = VARIANTS.find((v) => v.name === l.pick.variant)
       if (variant) methods = variant.prepend ? variant.add.concat(methods) : methods.concat(variant.add)
-      leaves.push({ fam: 'lattice', key: 'lat¦' + ENTRIES.map((e, i) => l.pick['r' + i] ? 2 : l.pick['e' + i] ? 1 : 0).join('') + '¦' + l.pick.variant, config: { localVarPrefix: 'p', csiMethods: methods }, variant: l.pick.variant })
+      const config = Object.assign({ localVarPrefix: 'p', csiMethods: methods }, l.pick.extra ? EXTRAS[l.pick.extra] : {})
+      if (config.localVarPrefix === undefined) delete config.localVarPrefix
+      leaves.push({ fam: 'lattice', key: 'lat¦' + ENTRIES.map((e, i) => l.pick['r' + i] ? 2 : l.pick['e' + i] ? 1 : 0).join('') + '¦' + l.pick.variant + (l.pick.extra ? '¦' + l.pick.extra : ''), config, variant: l.pick.variant })
     }
     for (const c of [{ localVarPrefix: 'p' }, { localVarPrefix: 'p', csiMethods: [] }, {}]) { stats.states++; stats.transitions++; leaves.push({ fam: 'lattice', key: 'lat¦empty¦' + JSON.stringify(c), config: c, variant: null }) }
   }
